@@ -1307,7 +1307,7 @@ def parse_txt(txt, xopts=None, **kwargs):
         xopts.parse_depth = depth - 1
 
 
-MAX_NESTED_PARSES = 40
+MAX_NESTED_PARSES = 12
 
 
 def _parse_tokens(tokens, xopts):
